@@ -917,14 +917,9 @@ func (x *Exec) atReturn(st *State, results []SV) {
 		if len(x.fc.Uses) > 0 {
 			// lemma hints may mention the locals live at the return
 			uenv := x.contractEnv(st, results, st.entry)
-			saved := map[string]SV{}
-			for k, v := range uenv.vars {
-				saved[k] = v
-			}
+			// in a hint a name denotes the current value of the variable (its cell);
+			// names without a cell (result, resultN) keep the returned value
 			x.bindLocals(uenv, st.top(), nil)
-			for k, v := range saved {
-				uenv.vars[k] = v
-			}
 			for _, u := range x.fc.Uses {
 				func() {
 					defer func() {
